@@ -28,12 +28,30 @@ def run(ctx):
     ctx.rule('C10.b-iterators', 'caller iterators are consumed only by next()/for')
     ctx.rule('C10.b-items-reach-add', 'every item obtained reaches the matching add_*_shard on every path to Ok')
     ctx.rule('C10.c-inferred-size', 'shard_bytes passed to new() is len(as_ref(first item))')
+    ctx.rule('C10.e-wrappers-forward', 'the ReedSolomon{En,De}coder methods the one-shot functions use (supports, new, add, encode/decode) only forward to the default-rate codec: the pre-check of the one-shot call is the predicate the constructor fails by (clause shared with C09.c)')
+    ctx.rule('C10.f-iterator-is-the-accessor', 'the result iterators the one-shot functions collect from yield exactly what the accessors of the streaming result expose (clause shared with C12.b)')
+    from . import c09, c12
+    f0 = ctx.facts(cfgs[0])
+    ctx.guard('C10.analysable', ctx.shared, {'C09.c-delegation': 'C10.e-wrappers-forward'}, c09.check, ctx, f0, cfgs[0])
+    ctx.guard('C10.analysable', ctx.shared, {'C12.b-iterators': 'C10.f-iterator-is-the-accessor'}, c12.iterators, ctx, f0, cfgs[0])
     for cfg in cfgs:
         facts = ctx.facts(cfg)
-        ctx.guard('C10.analysable', one, ctx, facts, cfg, 'encode', 'reed_solomon::ReedSolomonEncoder', 'encode',
-                  {'original': 'add_original_shard'}, 'recovery_iter')
-        ctx.guard('C10.analysable', one, ctx, facts, cfg, 'decode', 'reed_solomon::ReedSolomonDecoder', 'decode',
-                  {'original': 'add_original_shard', 'recovery': 'add_recovery_shard'}, 'restored_original_iter')
+        both(ctx, facts, cfg)
+
+
+def both(ctx, facts, cfg):
+    ctx.guard('C10.analysable', one, ctx, facts, cfg, 'encode', 'reed_solomon::ReedSolomonEncoder', 'encode',
+              {'original': 'add_original_shard'}, 'recovery_iter')
+    ctx.guard('C10.analysable', one, ctx, facts, cfg, 'decode', 'reed_solomon::ReedSolomonDecoder', 'decode',
+              {'original': 'add_original_shard', 'recovery': 'add_recovery_shard'}, 'restored_original_iter')
+
+
+def iter_keep(cal):
+    """calls whose result is an iterator that yields exactly the items of its arguments, in order"""
+    decl = cal.get('decl') or ''
+    path = cal.get('path') or ''
+    return decl in ('std::iter::IntoIterator::into_iter', 'std::iter::Iterator::chain') or \
+        re.search(r'^(std|core)::iter::(sources::once::)?once(::<.*>)?$', path) is not None
 
 
 def callee_name(cal):
@@ -45,6 +63,8 @@ def one(ctx, facts, cfg, fname, codec, run_name, feeds, result_iter):
     fn = ctx.anchor(facts, fname, 'C10.a-must-pass')
     if fn is None:
         return
+    # private free helpers the one-shot function was split into are analysed in place
+    fn = core.inlined_fn(facts, fname, lambda g, t: not g.reachable and not g.impl_trait and not g.in_trait and g.kind != 'Closure' and not g.impl_self_adt)
     body = fn.body
     errs, oks = core.result_exits(body)
     ok_blocks = [b for (b, kind, d) in oks if kind == 'ctor']
@@ -146,7 +166,7 @@ def one(ctx, facts, cfg, fname, codec, run_name, feeds, result_iter):
                           fn=fname, cfg=cfg)
     next_sites = {}   # param -> [(bb, dest local)]
     for pn, seeds in iters.items():
-        flow = core.forward_flow(body, seeds, through_calls=lambda c: c.get('decl') == 'std::iter::IntoIterator::into_iter')
+        flow = core.forward_flow(body, seeds, through_calls=iter_keep)
         uses = core.call_uses(body, flow)
         ns = []
         bad = False
@@ -154,7 +174,7 @@ def one(ctx, facts, cfg, fname, codec, run_name, feeds, result_iter):
             decl = t['callee'].get('decl') or ''
             if decl == 'std::iter::Iterator::next':
                 ns.append((b, t['dest']['l']))
-            elif decl == 'std::iter::IntoIterator::into_iter':
+            elif iter_keep(t['callee']):
                 pass
             else:
                 bad = True
@@ -185,6 +205,21 @@ def one(ctx, facts, cfg, fname, codec, run_name, feeds, result_iter):
                     ctx.violation('C10.b-items-reach-add', 'wrong-add:%s' % pn, 'items of `%s` are given to %s' % (pn, wrong),
                                   site=t['line'], fn=fname, cfg=cfg)
             line = body.term(nb)['line']
+            # `for x in once(first).chain(rest) { add(x)? }`: the item is handed to an order-preserving adaptor chain whose
+            # next() site is itself one of this input's checked next() sites, and that site is on every path to an Ok exit
+            onces = [(b, t) for (b, t, idx) in core.call_uses(body, flow) if iter_keep(t['callee']) and t['callee'].get('decl') != 'std::iter::IntoIterator::into_iter']
+            if not adds and onces:
+                f2 = core.forward_flow(body, {t['dest']['l'] for b, t in onces}, through_calls=iter_keep)
+                via = [(b2, d2) for (b2, d2) in ns if (b2, d2) != (nb, dest)
+                       and any(op_place(a) is not None and op_place(a)['l'] in f2 for a in body.term(b2)['args'])]
+                stopb = frozenset(b2 for b2, _ in via)
+                if via:
+                    r2 = body.reachable_from(onces[0][0], stop=stopb)
+                    leaked2 = [ob for ob in ok_blocks if ob in r2]
+                    if not leaked2:
+                        ctx.ok('C10.b-items-reach-add', '%s:%s:next#%d-through-chain@%s' % (fname, pn, ns.index((nb, dest)), cfg),
+                               {'next_at': line, 'yielded_again_by_next_at': [body.term(b2)['line'] for b2, _ in via]})
+                        continue
             if not adds:
                 ctx.violation('C10.b-items-reach-add', 'dropped:%s' % pn,
                               'the item obtained from `%s` at %s never reaches %s' % (pn, line, add_path),
